@@ -7,13 +7,13 @@ wt=/tmp/mut/$prop; out=$wt/_out/$k
 dst=/verif/seeded/$prop-$k
 log=$(mktemp /tmp/confirm.XXXXXX)
 cd $wt || exit 2
-git checkout -q -- PyMatterSim
+git reset -q --hard HEAD
 PYTHONPATH=$wt /venv/bin/python $out/demo.py >$log.clean 2>&1; c0=$?
-git apply $out/patch.diff || { echo "$prop-$k: patch does not apply"; exit 3; }
+git apply --3way $out/patch.diff 2>/dev/null || git apply $out/patch.diff || { echo "$prop-$k: patch does not apply"; exit 3; }
 PYTHONPATH=$wt /venv/bin/python $out/demo.py >$log.mut 2>&1; c1=$?
 junit=$log.xml
 PYTHONPATH=$wt nice -n 5 /venv/bin/python -m pytest -q -p no:cacheprovider --timeout=900 --continue-on-collection-errors --junitxml=$junit >$log.pytest 2>&1
-git checkout -q -- PyMatterSim
+git reset -q --hard HEAD
 rm -f dump.*.dat dumpused 2>/dev/null
 python3 - "$junit" "$out" "$dst" "$c0" "$c1" "$prop" "$k" <<'PY'
 import json, sys, xml.etree.ElementTree as ET, os, shutil
